@@ -63,6 +63,10 @@ func main() {
 			fmt.Fprintln(os.Stderr, "replica:", err)
 			os.Exit(3)
 		}
+		if *mode == "busy" {
+			st, _ := json.Marshal(map[string]int64{"check_tx": world.BusyStats.Checks.Load(), "simulations": world.BusyStats.Sims.Load(), "simulations_ok": world.BusyStats.SimsOK.Load(), "queries": world.BusyStats.Queries.Load()})
+			_ = os.WriteFile(*out+".busy", st, 0o644)
+		}
 		return
 	}
 	if *info {
